@@ -234,6 +234,14 @@ pub fn build(quick: bool) -> Vec<Scenario> {
             .deepen(dmax, budget);
             v.push(if timeout { s.t2() } else { s });
         }
+        // "Canceled only for a cancelled coroutine": the parker is a new coroutine on a pooled stack whose previous occupant
+        // was cancelled (in three ways); its park on a fresh Blocker, ended by a plain unpark, must return Ok
+        if w == 1 {
+            use super::c15::{fresh_start, End, Prev};
+            for prev in [Prev::CancelledParked, Prev::CancelledYieldingDrop, Prev::PanickedCancelPendingYieldingDrop] {
+                v.push(sc(format!("co.fresh.on_reused_stack.after_{:?}.w1", prev).to_lowercase(), move |e| fresh_start(e, prev, 1, false, End::Returns)).tier(quick));
+            }
+        }
         // timeouts that are not a whole number of milliseconds: never reported before the deadline
         for ns in [1_500_000u64, 999_999, 1_000_001, 1] {
             v.push(sc(format!("co.fresh.t{}ns.Nothing.w{}", ns, w), move |e| fresh_blocker(e, w, ns, false, Partner::Nothing)).bound(1).t2());
